@@ -14,6 +14,7 @@ all (an IPv6 packet with `EnableIPv6 = false` meets an empty ip6tables).
 -/
 namespace IstioModel.C20
 set_option linter.unusedSimpArgs false
+set_option linter.unusedSectionVars false
 
 /-! ## The compiler is correct for nat/OUTPUT -/
 
@@ -404,5 +405,389 @@ theorem never_chain_loop (c : Config) (p : Packet) (d : Nat) :
   · rfl
   · simp only [List.foldl]
     exact specStep_loop _ _ _ (specStep_loop _ _ _ (specStep_loop _ _ _ rfl))
+
+/-! ## Whole-hook corollaries (REDIRECT mode, first packet of a connection) -/
+
+/-- The nat policy only ever accepts the packet unchanged or redirects it. -/
+theorem natSpec_shape (c : Config) (p : Packet) :
+    natSpec c p = .accept p ∨ ∃ port, natSpec c p = .redirect port := by
+  unfold natSpec natOutputSpec natPreroutingSpec
+  repeat' split
+  all_goals first | exact Or.inl rfl | exact Or.inr ⟨_, rfl⟩
+
+/-- In REDIRECT mode the first packet of a connection is decided by the nat table alone. -/
+theorem fate_redirect_mode (c : Config) (p : Packet) (d : Nat) (hon : famOn c p.fam = true)
+    (hmode : c.tproxy = false) (hnew : p.ctstate = .new) :
+    traverse (d + 2) (rulesOf c p.fam) p =
+      match natSpec c p with
+      | .redirect port => { redirect := some port, pkt := p }
+      | _ => { pkt := p } := by
+  rw [fate_correct]
+  have hv : (p.v6 && !c.enableIPv6) = false := by
+    unfold famOn at hon
+    cases hv : p.v6 <;> cases he : c.enableIPv6 <;> simp [Packet.fam, hv, he] at hon ⊢
+  have hm : mangleSpec c p = .accept p := by
+    unfold mangleSpec mangleOutputSpec manglePreroutingSpec
+    cases p.hook <;> simp [hmode, hnew]
+  simp only [specFate, hv, Bool.false_eq_true, if_false, List.foldl, specStep, Bool.or_self,
+    show (Table.raw == Table.nat) = false from rfl, show (Table.mangle == Table.nat) = false from rfl,
+    Bool.false_and, hm, hnew, beq_self_eq_true, Bool.true_and, bne_self_eq_false]
+  rcases natSpec_shape c p with h | ⟨port, h⟩ <;> simp [h]
+
+/-- outbound_exact for the whole hook. -/
+theorem outbound_exact_fate (c : Config) (p : Packet) (d : Nat) (hon : famOn c p.fam = true)
+    (hmode : c.tproxy = false) (hnew : p.ctstate = .new) (hh : p.hook = .output)
+    (happ : proxyOwned c p = false) (hdns : dnsCaptured c p = false) :
+    traverse (d + 2) (rulesOf c p.fam) p =
+      if outboundCaptured c p then { redirect := some c.proxyPort, pkt := p } else { pkt := p } := by
+  rw [fate_redirect_mode c p d hon hmode hnew]
+  have h1 := outbound_app c p d hon happ
+  rw [nat_output_correct c p d hon] at h1
+  have h2 : outboundDNSCaptured c p = false := by simp [outboundDNSCaptured, hdns]
+  simp only [natSpec, hh, h1, h2, Bool.false_eq_true, if_false]
+  by_cases hc : outboundCaptured c p = true <;> simp [hc]
+
+/-- no_loop for the whole hook. -/
+theorem no_loop_fate (c : Config) (p : Packet) (d : Nat) (hon : famOn c p.fam = true)
+    (hmode : c.tproxy = false) (hnew : p.ctstate = .new) (hh : p.hook = .output)
+    (ho : proxyOwned c p = true) (hp : c.proxyPort ≠ c.inboundCapturePort) :
+    (traverse (d + 2) (rulesOf c p.fam) p).redirect ≠ some c.proxyPort ∧
+    (traverse (d + 2) (rulesOf c p.fam) p).dropped = false := by
+  rw [fate_redirect_mode c p d hon hmode hnew]
+  have h1 := no_loop c p d hon ho
+  rw [nat_output_correct c p d hon] at h1
+  simp only [natSpec, hh]
+  rcases h1 with h1 | ⟨h1, _⟩ <;> simp [h1]
+  exact fun e => hp e.symm
+
+/-- inbound_exact for the whole hook. -/
+theorem inbound_exact_fate (c : Config) (p : Packet) (d : Nat) (hon : famOn c p.fam = true)
+    (hmode : c.tproxy = false) (hnew : p.ctstate = .new) (hh : p.hook = .prerouting) (hkv : kubeVirt c p = false) :
+    traverse (d + 2) (rulesOf c p.fam) p =
+      if inboundCaptured c p then { redirect := some c.inboundCapturePort, pkt := p } else { pkt := p } := by
+  rw [fate_redirect_mode c p d hon hmode hnew]
+  simp only [natSpec, hh, natPreroutingSpec, hkv, hmode, Bool.false_eq_true, if_false, Bool.not_false, Bool.true_and]
+  by_cases hc : inboundCaptured c p = true <;> simp [hc]
+
+/-- Later packets of a connection never meet the nat table: in REDIRECT mode they pass (or, with
+    drop-invalid, INVALID ones are dropped at PREROUTING). -/
+theorem non_new_untouched (c : Config) (p : Packet) (d : Nat) (hmode : c.tproxy = false)
+    (hct : p.ctstate = .established ∨ p.ctstate = .related) :
+    traverse (d + 2) (rulesOf c p.fam) p = { pkt := p } := by
+  rw [fate_correct]
+  unfold specFate
+  split
+  · rfl
+  · have hm : mangleSpec c p = .accept p := by
+      unfold mangleSpec mangleOutputSpec manglePreroutingSpec
+      rcases hct with h | h <;> cases p.hook <;> simp [hmode, h]
+    rcases hct with h | h <;>
+      simp [List.foldl, specStep, hm, h, show (Table.raw == Table.nat) = false from rfl,
+        show (Table.mangle == Table.nat) = false from rfl]
+
+/-! ## DNS: the agent's own TCP DNS -/
+
+theorem identityWalk_uid53 (c : Config) (p : Packet) (uids : List String) (rest : List OwnerId)
+    (hd : c.dns = true) (hu : uids.contains p.uid = true) (h53 : p.dport = 53) :
+    identityWalk c p (uids.map .uid ++ rest) = some false := by
+  induction uids with
+  | nil => simp at hu
+  | cons u us ih =>
+    simp only [List.map_cons, List.cons_append, identityWalk, OwnerId.owns]
+    by_cases ho : (p.uid == u) = true
+    · simp [ho, selfCall, hd, h53]
+    · have hb : loopbackBypass c p = false := by simp [loopbackBypass, hd, h53]
+      simp only [ho, Bool.false_eq_true, if_false, hb]
+      apply ih
+      have hne : p.uid ≠ u := by simpa using ho
+      simpa [List.contains_cons, hne] using hu
+
+/-- With DNS capture, TCP port 53 sent by a proxy UID (the agent's upstream queries) is never
+    redirected - not to the DNS agent, not to the outbound port, and not even to the inbound listener. -/
+theorem dns_proxy_uid_port53 (c : Config) (p : Packet) (d : Nat) (h : famOn c p.fam = true)
+    (hd : c.dns = true) (hu : c.proxyUIDs.contains p.uid = true) (h53 : p.dport = 53) :
+    evalTable (d + 2) (rulesOf c p.fam) .nat .output p = .accept p := by
+  rw [nat_output_correct c p d h]
+  unfold natOutputSpec
+  split
+  · rfl
+  · simp [Config.identities, identityWalk_uid53 c p _ _ hd hu h53]
+
+/-! ## TPROXY mode -/
+
+/-- "prevent infinite redirect": in TPROXY mode a packet that already carries the TPROXY mark is
+    never handed to TPROXY again, and its mark is not changed. -/
+theorem tproxy_no_reloop (c : Config) (p : Packet) (d : Nat) (h : famOn c p.fam = true)
+    (hmode : c.tproxy = true) (hm : p.mark = c.tproxyMark) :
+    evalTable (d + 2) (rulesOf c p.fam) .mangle .prerouting p = .drop ∨
+    ∃ q, evalTable (d + 2) (rulesOf c p.fam) .mangle .prerouting p = .accept q ∧ q.mark = p.mark := by
+  rw [mangle_prerouting_correct c p d h]
+  unfold manglePreroutingSpec
+  have hb : tproxyBypass c p = true := by simp [tproxyBypass, hm]
+  simp only [hmode, hb, Bool.not_true, Bool.false_eq_true, if_false, Bool.and_false, Bool.false_and, Bool.true_and]
+  split
+  · exact Or.inr ⟨p, rfl, rfl⟩
+  · split
+    · exact Or.inl rfl
+    · right
+      split <;> exact ⟨_, rfl, rfl⟩
+
+/-- **inbound_exact, TPROXY mode**: a new TCP connection arriving on an ordinary interface (not excluded,
+    not `lo`), not yet marked, is handed to TPROXY on the inbound capture port (and marked) IF AND ONLY IF
+    its port is selected and its destination is not loopback; otherwise it passes unchanged. -/
+theorem tproxy_inbound_exact (c : Config) (p : Packet) (d : Nat) (h : famOn c p.fam = true)
+    (hmode : c.tproxy = true) (htcp : p.proto = .tcp) (hnew : p.ctstate = .new)
+    (hif : c.exclIfs.contains p.inIf = false) (hlo : p.inIf ≠ "lo") (hm : p.mark ≠ c.tproxyMark) :
+    evalTable (d + 2) (rulesOf c p.fam) .mangle .prerouting p =
+      if tproxyPortSelected c p && !loopbackDst c p
+      then .tproxy c.inboundCapturePort { p with mark := c.tproxyMark } else .accept p := by
+  rw [mangle_prerouting_correct c p d h]
+  unfold manglePreroutingSpec
+  have hb : tproxyBypass c p = false := by
+    have h1 : (p.mark == c.tproxyMark) = false := by simpa using hm
+    have h2 : (p.inIf == "lo") = false := by simpa using hlo
+    simp [tproxyBypass, inLo, h1, h2]
+  have hm' : (p.mark == c.tproxyMark) = false := by simpa using hm
+  simp only [hmode, inIfExcluded, hif, hnew, isTcp, htcp, hb, hm']
+  by_cases hs : tproxyPortSelected c p = true <;> by_cases hl : loopbackDst c p = true <;> simp [hs, hl]
+
+/-- ... and packets of an established connection to a selected port are marked and accepted (diverted). -/
+theorem tproxy_divert_established (c : Config) (p : Packet) (d : Nat) (h : famOn c p.fam = true)
+    (hmode : c.tproxy = true) (htcp : p.proto = .tcp) (hest : p.ctstate = .established ∨ p.ctstate = .related)
+    (hif : c.exclIfs.contains p.inIf = false) (hlo : p.inIf ≠ "lo") (hm : p.mark ≠ c.tproxyMark)
+    (hs : tproxyPortSelected c p = true) :
+    evalTable (d + 2) (rulesOf c p.fam) .mangle .prerouting p = .accept { p with mark := c.tproxyMark } := by
+  rw [mangle_prerouting_correct c p d h]
+  unfold manglePreroutingSpec
+  have hb : tproxyBypass c p = false := by
+    have h1 : (p.mark == c.tproxyMark) = false := by simpa using hm
+    have h2 : (p.inIf == "lo") = false := by simpa using hlo
+    simp [tproxyBypass, inLo, h1, h2]
+  have hif' : ¬ p.inIf ∈ c.exclIfs := by simpa using hif
+  rcases hest with he | he <;> simp [hmode, inIfExcluded, hif', he, isTcp, htcp, hb, hs]
+
+/-- Observation (recorded, see notes/C20.md): the tunnel-port exemption `--dport 15008 -j RETURN` is
+    only ever emitted into nat/ISTIO_INBOUND. In TPROXY mode nothing jumps to that chain, and the mangle
+    rules have no such exemption: with `*` a new connection to the tunnel port IS handed to TPROXY. -/
+theorem tproxy_tunnel_port_not_exempt (c : Config) (p : Packet) (d : Nat) (h : famOn c p.fam = true)
+    (hmode : c.tproxy = true) (hall : c.inboundInclude = .all) (hx : c.inboundExclude.contains p.dport = false)
+    (_hport : p.dport = c.inboundTunnelPort)
+    (htcp : p.proto = .tcp) (hnew : p.ctstate = .new) (hif : c.exclIfs.contains p.inIf = false)
+    (hlo : p.inIf ≠ "lo") (hm : p.mark ≠ c.tproxyMark) (hdst : loopbackDst c p = false) :
+    evalTable (d + 2) (rulesOf c p.fam) .mangle .prerouting p =
+      .tproxy c.inboundCapturePort { p with mark := c.tproxyMark } := by
+  rw [tproxy_inbound_exact c p d h hmode htcp hnew hif hlo hm]
+  have hx' : ¬ p.dport ∈ c.inboundExclude := by simpa using hx
+  simp [tproxyPortSelected, hall, hx', hdst]
+
+/-! ## v4_v6_same_policy -/
+
+/-- A verdict without the packet's identity: what happened, and the marks the packet leaves with. -/
+inductive Outcome
+  | pass (mark connmark : Nat)
+  | drop
+  | redirect (port : Nat)
+  | tproxy (port mark connmark : Nat)
+  | loop
+  deriving DecidableEq, Repr
+
+def Verdict.out : Verdict → Outcome
+  | .accept p => .pass p.mark p.connmark
+  | .drop => .drop
+  | .redirect port => .redirect port
+  | .tproxy port p => .tproxy port p.mark p.connmark
+  | .loop => .loop
+
+/-- The same connection attempt seen in the two families: every field that is not an address agrees. -/
+structure SameButAddrs (p4 p6 : Packet) : Prop where
+  fam4 : p4.v6 = false
+  fam6 : p6.v6 = true
+  hook : p6.hook = p4.hook
+  proto : p6.proto = p4.proto
+  sport : p6.sport = p4.sport
+  dport : p6.dport = p4.dport
+  inIf : p6.inIf = p4.inIf
+  outIf : p6.outIf = p4.outIf
+  uid : p6.uid = p4.uid
+  gid : p6.gid = p4.gid
+  ctstate : p6.ctstate = p4.ctstate
+  mark : p6.mark = p4.mark
+  connmark : p6.connmark = p4.connmark
+
+/-- The address embedding, stated by what it must preserve: the configuration classifies the two
+    packets' addresses alike (loopback range `HostIPv4LoopbackCidr` ~ `::1/128`, passthrough source
+    `127.0.0.6` ~ `::6`, and membership in the family's share of the include / exclude / DNS lists). -/
+structure AddrClassesAgree (c : Config) (p4 p6 : Packet) : Prop where
+  lo : loopbackDst c p6 = loopbackDst c p4
+  src : src6.contains p6.src = src4.contains p4.src
+  excl : dstExcluded c p6 = dstExcluded c p4
+  incl : dstIncluded c p6 = dstIncluded c p4
+  dns : c.dnsV6.contains p6.dst = c.dnsV4.contains p4.dst
+
+section
+variable {c : Config} {p4 p6 : Packet} (hs : SameButAddrs p4 p6) (ha : AddrClassesAgree c p4 p6)
+include hs ha
+
+theorem same_isTcp : isTcp p6 = isTcp p4 := by simp [isTcp, hs.proto]
+theorem same_isTcpUdp : isTcpUdp p6 = isTcpUdp p4 := by simp [isTcpUdp, hs.proto]
+theorem same_onLo : onLo p6 = onLo p4 := by simp [onLo, hs.outIf]
+theorem same_inLo : inLo p6 = inLo p4 := by simp [inLo, hs.inIf]
+theorem same_proxyOwned : proxyOwned c p6 = proxyOwned c p4 := by simp [proxyOwned, hs.uid, hs.gid]
+theorem same_outIfExcluded : outIfExcluded c p6 = outIfExcluded c p4 := by simp [outIfExcluded, hs.outIf]
+theorem same_inIfExcluded : inIfExcluded c p6 = inIfExcluded c p4 := by simp [inIfExcluded, hs.inIf]
+theorem same_outPortExcluded : outPortExcluded c p6 = outPortExcluded c p4 := by
+  simp [outPortExcluded, same_isTcpUdp hs ha, hs.dport]
+theorem same_outPortIncluded : outPortIncluded c p6 = outPortIncluded c p4 := by
+  simp [outPortIncluded, same_isTcp hs ha, hs.dport]
+theorem same_fromPassthrough : fromPassthrough p6 = fromPassthrough p4 := by
+  simp [fromPassthrough, same_onLo hs ha, hs.fam4, hs.fam6, ha.src]
+theorem same_ownerGroup : ownerGroupCaptured c p6 = ownerGroupCaptured c p4 := by
+  simp [ownerGroupCaptured, hs.gid]
+theorem same_loopbackBypass : loopbackBypass c p6 = loopbackBypass c p4 := by
+  simp [loopbackBypass, same_onLo hs ha, same_isTcp hs ha, hs.dport]
+theorem same_dnsCaptured : dnsCaptured c p6 = dnsCaptured c p4 := by
+  simp only [dnsCaptured, same_isTcpUdp hs ha, hs.dport, hs.fam4, hs.fam6, ha.dns, if_true, Bool.false_eq_true, if_false]
+theorem same_kubeVirt : kubeVirt c p6 = kubeVirt c p4 := by simp [kubeVirt, hs.inIf]
+theorem same_inboundCaptured : inboundCaptured c p6 = inboundCaptured c p4 := by
+  simp [inboundCaptured, inboundPortCaptured, same_isTcp hs ha, same_inIfExcluded hs ha, hs.dport]
+theorem same_tproxyPortSelected : tproxyPortSelected c p6 = tproxyPortSelected c p4 := by
+  simp [tproxyPortSelected, hs.dport]
+theorem same_tproxyBypass : tproxyBypass c p6 = tproxyBypass c p4 := by
+  simp [tproxyBypass, hs.mark, same_inLo hs ha, hs.fam4, hs.fam6, ha.src]
+
+theorem same_identityWalk (l : List OwnerId) : identityWalk c p6 l = identityWalk c p4 l := by
+  induction l with
+  | nil => rfl
+  | cons o rest ih =>
+    have ho : o.owns p6 = o.owns p4 := by cases o <;> simp [OwnerId.owns, hs.uid, hs.gid]
+    have hsc : selfCall c p6 o = selfCall c p4 o := by
+      cases o <;> simp [selfCall, same_onLo hs ha, ha.lo, same_isTcp hs ha, hs.dport]
+    simp only [identityWalk, ho, hsc, same_loopbackBypass hs ha, ih]
+
+/-- The nat-table policy gives the two packets the same outcome. -/
+theorem same_natSpec : (natSpec c p6).out = (natSpec c p4).out := by
+  unfold natSpec
+  rw [hs.hook]
+  cases p4.hook
+  · -- prerouting
+    simp only [natPreroutingSpec, same_kubeVirt hs ha, same_isTcp hs ha, ha.incl, same_inboundCaptured hs ha]
+    repeat' split
+    all_goals simp [Verdict.out, hs.mark, hs.connmark]
+  · simp only [natOutputSpec, same_outIfExcluded hs ha, same_outPortExcluded hs ha, same_fromPassthrough hs ha,
+      same_identityWalk hs ha, same_ownerGroup hs ha, same_dnsCaptured hs ha, ha.lo, ha.excl, same_isTcp hs ha,
+      same_outPortIncluded hs ha, ha.incl]
+    repeat' split
+    all_goals simp [Verdict.out, hs.mark, hs.connmark]
+
+/-- The mangle-table policy gives the two packets the same outcome. -/
+theorem same_mangleSpec : (mangleSpec c p6).out = (mangleSpec c p4).out := by
+  unfold mangleSpec
+  rw [hs.hook]
+  cases p4.hook
+  · simp only [manglePreroutingSpec, same_inIfExcluded hs ha, hs.ctstate, same_isTcp hs ha, hs.mark,
+      same_tproxyBypass hs ha, same_tproxyPortSelected hs ha, ha.lo]
+    repeat' split
+    all_goals simp [Verdict.out, hs.mark, hs.connmark]
+  · simp only [mangleOutputSpec, same_outIfExcluded hs ha, same_isTcp hs ha, same_onLo hs ha, hs.mark, ha.lo,
+      same_proxyOwned hs ha, hs.connmark]
+    repeat' split
+    all_goals simp [Verdict.out, hs.mark, hs.connmark]
+
+end
+
+/-- **v4_v6_same_policy.** With IPv6 enabled, the ip6tables rule set decides the IPv6 image of a packet
+    exactly as the iptables rule set decides the IPv4 packet - same redirect port, same TPROXY port, same
+    drop, same resulting marks - in the nat and in the mangle table, at both hooks, for every
+    configuration: the two rule sets express one policy. -/
+theorem v4_v6_same_policy (c : Config) (p4 p6 : Packet) (d : Nat) (he : c.enableIPv6 = true)
+    (hs : SameButAddrs p4 p6) (ha : AddrClassesAgree c p4 p6) :
+    (evalTable (d + 2) (rulesOf c .v6) .nat p6.hook p6).out = (evalTable (d + 2) (rulesOf c .v4) .nat p4.hook p4).out ∧
+    (evalTable (d + 2) (rulesOf c .v6) .mangle p6.hook p6).out = (evalTable (d + 2) (rulesOf c .v4) .mangle p4.hook p4).out := by
+  have f4 : p4.fam = .v4 := by simp [Packet.fam, hs.fam4]
+  have f6 : p6.fam = .v6 := by simp [Packet.fam, hs.fam6]
+  have h4 : famOn c p4.fam = true := by simp [famOn, f4]
+  have h6 : famOn c p6.fam = true := by simp [famOn, f6, he]
+  have n := same_natSpec hs ha
+  have m := same_mangleSpec hs ha
+  unfold natSpec at n
+  unfold mangleSpec at m
+  rw [hs.hook] at n m ⊢
+  rw [← f4, ← f6]
+  cases hh : p4.hook <;> simp only [hh] at n m
+  · exact ⟨by rw [nat_prerouting_correct c p6 d h6, nat_prerouting_correct c p4 d h4]; exact n,
+           by rw [mangle_prerouting_correct c p6 d h6, mangle_prerouting_correct c p4 d h4]; exact m⟩
+  · exact ⟨by rw [nat_output_correct c p6 d h6, nat_output_correct c p4 d h4]; exact n,
+           by rw [mangle_output_correct c p6 (d + 1) h6, mangle_output_correct c p4 (d + 1) h4]; exact m⟩
+
+
+/-! ## Non-vacuity: concrete configurations and packets meeting the hypotheses, and the recorded corners -/
+
+/-- `*` outbound, 10.0.0.0/8 excluded, port 3306 excluded, docker0 excluded, `*` inbound except 15020. -/
+def exCfg : Config :=
+  { proxyUIDs := ["1337"], proxyGIDs := ["1337"], inboundInclude := .all, inboundExclude := [15020],
+    outIncludeAll := true, outExclude := [⟨false, 167772160, 8⟩], outPortsExclude := [3306], exclIfs := ["docker0"] }
+
+/-- An application connection 10.1.2.3 -> 8.8.8.8:80 leaving through eth0. -/
+def exApp : Packet :=
+  { hook := .output, v6 := false, proto := .tcp, src := 167838211, dst := 134744072, sport := 40000, dport := 80,
+    inIf := "", outIf := "eth0", uid := "1000", gid := "1000", ctstate := .new, mark := 0, connmark := 0 }
+
+example : famOn exCfg exApp.fam = true ∧ proxyOwned exCfg exApp = false ∧ dnsCaptured exCfg exApp = false ∧
+    outboundCaptured exCfg exApp = true := by decide
+example : fateOf exCfg exApp = { redirect := some 15001, pkt := exApp } := by decide
+-- the same connection by the proxy itself, to an excluded range, to an excluded port, on lo to itself
+example : fateOf exCfg { exApp with uid := "1337" } = { pkt := { exApp with uid := "1337" } } := by decide
+example : (fateOf exCfg { exApp with dst := 167838212 }).redirect = none := by decide
+example : (fateOf exCfg { exApp with dport := 3306 }).redirect = none := by decide
+example : (fateOf exCfg { exApp with outIf := "lo", dst := 167838211 }).redirect = none := by decide
+-- the proxy calling the application's own address over lo goes to the INBOUND port
+example : (fateOf exCfg { exApp with uid := "1337", outIf := "lo", dst := 167838211 }).redirect = some 15006 := by decide
+-- inbound: port 8080 captured, 15020 (excluded) and 15008 (tunnel) not
+example : (fateOf exCfg { exApp with hook := .prerouting, inIf := "eth0", outIf := "", dport := 8080 }).redirect = some 15006 := by decide
+example : (fateOf exCfg { exApp with hook := .prerouting, inIf := "eth0", outIf := "", dport := 15020 }).redirect = none := by decide
+example : (fateOf exCfg { exApp with hook := .prerouting, inIf := "eth0", outIf := "", dport := 15008 }).redirect = none := by decide
+
+/-- Corner 1 (documented in run.go, deliberate): with DNS capture an application's TCP port 53 on `lo`
+    is NOT covered by the loopback bypass; to a non-loopback, non-resolver address it is captured like
+    any outbound connection. `loopback_alone` therefore carries the port-53 exception. -/
+theorem loopback_dns53_is_captured_witness :
+    fateOf { exCfg with redirectDNS := true, dnsV4 := [2130706485], outExclude := [] }
+        { exApp with outIf := "lo", dst := 167838211, dport := 53 } =
+      { redirect := some 15001, pkt := { exApp with outIf := "lo", dst := 167838211, dport := 53 } } := by decide
+
+/-- Corner 2: with an explicit inbound include list the exclude list is not consulted. -/
+theorem inbound_exclude_ignored_witness :
+    (fateOf { exCfg with inboundInclude := .ports [15020, 8080] }
+        { exApp with hook := .prerouting, inIf := "eth0", outIf := "", dport := 15020 }).redirect = some 15006 := by decide
+
+/-- Corner 3 (multi_uid_note): the second proxy UID's call to itself is handed back, not sent to the
+    inbound listener (the first UID's `! --uid-owner` RETURN shadows it); the first UID's is. -/
+theorem second_uid_shadowed_witness :
+    (fateOf { exCfg with proxyUIDs := ["1337", "1338"] }
+        { exApp with uid := "1338", outIf := "lo", dst := 167838211 }).redirect = none ∧
+    (fateOf { exCfg with proxyUIDs := ["1337", "1338"] }
+        { exApp with uid := "1337", outIf := "lo", dst := 167838211 }).redirect = some 15006 := by decide
+
+/-- Corner 4: the GID blocks have no DNS variant of the call-to-self rule: with DNS capture a packet
+    owned only by a proxy GID, TCP port 53 on `lo` to a non-loopback address, goes to the inbound
+    listener, whereas the same packet owned by a proxy UID is left alone (`dns_proxy_uid_port53`). -/
+theorem gid_dns_selfcall_witness :
+    (fateOf { exCfg with redirectDNS := true, captureAllDNS := true }
+        { exApp with gid := "1337", outIf := "lo", dst := 167838211, dport := 53 }).redirect = some 15006 ∧
+    (fateOf { exCfg with redirectDNS := true, captureAllDNS := true }
+        { exApp with uid := "1337", outIf := "lo", dst := 167838211, dport := 53 }).redirect = none := by decide
+
+/-- Corner 5: TPROXY mode hands a new connection to the tunnel port 15008 to TPROXY (REDIRECT mode
+    exempts it, see the examples above). -/
+theorem tproxy_tunnel_port_witness :
+    (fateOf { exCfg with tproxy := true }
+        { exApp with hook := .prerouting, inIf := "eth0", outIf := "", dport := 15008 }).tproxy = some 15006 := by decide
+
+/-- Non-vacuity of `v4_v6_same_policy`: 127.0.0.1 ~ ::1 and 8.8.8.8 ~ 2001:4860:4860::8888 under `exCfg`. -/
+example : SameButAddrs exApp { exApp with v6 := true, src := 1, dst := 42541956123769884636017138956568135816 } :=
+  ⟨rfl, rfl, rfl, rfl, rfl, rfl, rfl, rfl, rfl, rfl, rfl, rfl, rfl⟩
+example : AddrClassesAgree { exCfg with enableIPv6 := true } exApp
+    { exApp with v6 := true, src := 1, dst := 42541956123769884636017138956568135816 } :=
+  ⟨by decide, by decide, by decide, by decide, by decide⟩
 
 end IstioModel.C20
